@@ -71,6 +71,17 @@ def fam_history(seed, n, all_statuses=True):
             sc["ops"] += [["wait"], ["pid"], ["exit_status"], rng.choice([["terminate"], ["kill"], ["send_signal", 10]]),
                           ["poll"]]
         out.append(sc)
+    # a signal handler interrupts the handle's waitpid (EINTR): nothing has been learnt about the child; the
+    # interrupted call may fail with that error, and the caller calls again
+    for j, (ops, eat, at) in enumerate([
+        ([["wait"], ["wait"], ["poll"], ["wait"], ["pid"], ["exit_status"]], [1], 50 * MS),
+        ([["wait"], ["wait"], ["wait"], ["wait"]], [1, 2, 3], 5 * MS),
+        ([["poll"], ["poll"], ["wait_timeout", 20 * MS], ["wait_timeout", 20 * MS], ["wait"], ["wait"]], [1, 3, 5], 8 * MS),
+        ([["wait_timeout", 3 * MS], ["wait"], ["wait"], ["kill"], ["wait"]], [2, 4], None),
+        ([["terminate"], ["wait"], ["wait"], ["wait"]], [1, 2], None),
+    ]):
+        out.append({"id": "h-eintr%d" % j, "exit": {"k": "exited", "v": 7, "at": at}, "ops": ops, "drop": True,
+                    "eintr_at": eat, "kill_latency": 2 * MS})
     # numbers that are no signal must be refused by the kernel as they are -- not reach the child as another signal
     for j, sig in enumerate([256, 265, 271, -241, 65536 + 9, 2 ** 31 - 1, -(2 ** 31)]):
         out.append({"id": "h-badsig%d" % j, "exit": {"k": "exited", "v": 3, "at": None},
